@@ -275,7 +275,7 @@ def template_main():
         if _vclass(r2) != vclass:   # should not happen: shrink only accepts same class
             small, r2 = scenario, res
         d2 = util.digest_of(r2.get("events", []))
-        rs = util.run_seed(pid, base, i)
+        rs = util.run_seed(pid + ":" + tier, base, i)
         path = os.path.join(os.environ.get("VERIF_REPLAY_DIR")
                             or os.path.join(VERIF_DIR, "replays"), f"{pid}-{rs:016x}.json")
         os.makedirs(os.path.dirname(path), exist_ok=True)
@@ -341,7 +341,7 @@ def template_main():
 
     i = slot
     while i < max_index and time.monotonic() < t_end:
-        rs = util.run_seed(pid, base, i)
+        rs = util.run_seed(pid + ":" + tier, base, i)   # batches (tiers) explore different runs
         scenario = P.generate(rs, tier)
         res = run_forked(P, scenario, open_sigs)
         if "harness_error" in res:
